@@ -28,6 +28,7 @@ type childScript struct {
 	Go        string `json:"go"` // FIFO on which the parent says "go" once the answered calls have returned
 	IgnoreInt bool   `json:"ignoreInt"`
 	Init      string `json:"init"`   // how the handshake goes: "" answers initialize | silent (reads on, never answers) | noread (never reads its stdin at all) | error | garbage | exit (leaves when initialize arrives)
+	SrvReq    string `json:"srvReq"` // non-empty: after the handshake write a request with this method to the client, then stop reading
 	Helper    int    `json:"helper"` // > 0: before anything else start a helper process (this binary again, sleeping that many seconds) that inherits this process' stderr and is left behind
 }
 
@@ -156,6 +157,14 @@ func childMain(raw string) {
 			case "exit":
 				os.Exit(0)
 			}
+		}
+		if m.Method == "initialize" && sc.SrvReq != "" {
+			out.Write(append([]byte(`{"jsonrpc":"2.0","id":`+string(m.ID)+`,"result":`+initResult+`}`), '\n'))
+			var n childReq
+			dec.Decode(&n) // notifications/initialized
+			out.Write(append([]byte(`{"jsonrpc":"2.0","id":"srv-1","method":"`+sc.SrvReq+`"}`), '\n'))
+			mark("srvreq")
+			hang()
 		}
 		if m.Method == "initialize" {
 			out.Write(append([]byte(`{"jsonrpc":"2.0","id":`+string(m.ID)+`,"result":`+initResult+`}`), '\n'))
